@@ -32,6 +32,9 @@ rule("C01.j", "a report column that is accumulated with += inside a loop over ma
               "loop, in every pass that selects the rows: a pass that selects the same rows again (an asset listing one node twice) "
               "must not add them a second time", floor=2)
 
+rule("C14.l", "split optimisation: the results of the intervals are merged key by key without assuming that every interval has the same kinds "
+              "of restrictions - a dictionary of the combined result is read with a key taken from an interval's dictionary only under a "
+              "membership test", floor=2)
 rule("C01.m", "report: `frame.loc[labels, col] += values` adds up only when `labels` is one label; with an array of labels repeated "
               "labels do not accumulate (the last one wins) - accumulation over mapping rows goes row by row, or through a grouped sum", floor=2)
 rule("C05.n", "the series reported per storage (charge, discharge, fill level) are built from the rows of *all* nodes of the storage: a "
@@ -253,7 +256,9 @@ def _accumulators(ctx):
             lab = st.target.slice.elts[0] if isinstance(st.target.slice, ast.Tuple) and st.target.slice.elts else st.target.slice
             arrayish = any(isinstance(x, ast.Attribute) and x.attr in ("values", "index") for x in au.walk_local(lab)) or \
                 any(isinstance(x, ast.Call) and au.method_name(x) in ("astype", "to_numpy", "tolist", "unique", "array", "asarray") for x in au.walk_local(lab)) or \
-                any(isinstance(a, ast.For) and isinstance(a.iter, ast.Call) and au.method_name(a.iter) == "groupby" for a in p.ancestors(st))
+                any(isinstance(a, ast.For) and isinstance(a.iter, ast.Call) and au.method_name(a.iter) == "groupby"
+                    and isinstance(a.target, ast.Tuple) and len(a.target.elts) == 2 and isinstance(a.target.elts[1], ast.Name)
+                    and a.target.elts[1].id in au.names_in(lab) for a in p.ancestors(st))   # a column of the group frame: one label per row of the group
             ctx.ob("C01.m", fn, au.short(st, 80), not arrayish,
                    "the labels on the left are an array (%s): pandas evaluates `frame.loc[labels, col] += v` as a read, an addition and a label-based "
                    "write, so two rows with the same label (two variables of one asset at the same node and step - power and heat of a CHP at its "
@@ -281,6 +286,42 @@ def _accumulators(ctx):
                    "the solution vector is extended under %s but the value under %s: for an interval that fails the extra condition (a MIP "
                    "interval returns no duals) the solution is appended while its value is not added - the reported value (0 for an all-MIP "
                    "split) no longer equals the sum of the cash-flow table, which is computed from x" % (fmt(cx), fmt(cv)), node=ev["value"][0][1])
+
+    # ---------------------------------------------------------------- C14.l key-by-key merge of interval dictionaries
+    if so is not None:
+        n_l = 0
+        for lp in [s0 for s0 in au.walk_stmts(so.body) if isinstance(s0, ast.For) and isinstance(s0.target, ast.Name)]:
+            src = lp.iter
+            if isinstance(src, ast.Call) and au.method_name(src) in ("keys", "items") and isinstance(src.func, ast.Attribute):
+                src = src.func.value
+            if not isinstance(src, (ast.Attribute, ast.Name, ast.Subscript)) or isinstance(lp.iter, ast.Call) and au.method_name(lp.iter) in ("range", "enumerate", "zip"):
+                continue
+            k = lp.target.id
+            for st in au.walk_stmts(lp.body):
+                for x in au.walk_own(st):
+                    if not (isinstance(x, ast.Subscript) and isinstance(x.ctx, ast.Load) and isinstance(x.slice, ast.Name) and x.slice.id == k):
+                        continue
+                    if au.U(x.value) == au.U(src):
+                        continue
+                    n_l += 1
+                    guarded, child = False, x
+                    for a0 in p.ancestors(x):
+                        if isinstance(a0, ast.If):
+                            arm = "body" if any(child is b0 for b0 in a0.body) else ("orelse" if any(child is b0 for b0 in a0.orelse) else "test")
+                            for c in au.walk_local(a0.test):
+                                if isinstance(c, ast.Compare) and len(c.ops) == 1 and isinstance(c.left, ast.Name) and c.left.id == k \
+                                        and au.U(c.comparators[0]) == au.U(x.value):
+                                    if (isinstance(c.ops[0], ast.In) and arm == "body") or (isinstance(c.ops[0], ast.NotIn) and arm == "orelse"):
+                                        guarded = True
+                        if a0 is lp:
+                            break
+                        child = a0
+                    ctx.ob("C14.l", so, "%s inside `for %s in %s`" % (au.short(x, 40), k, au.short(lp.iter, 30)), guarded,
+                           "%s is read for every key of %s without a test that it has that key: an interval with a kind of restriction that the "
+                           "intervals before did not have (a storage that starts in the second half of the horizon brings the first 'U' rows) "
+                           "stops the split optimisation with a KeyError" % (au.short(x.value, 30), au.short(src, 30)), node=x)
+        if n_l == 0:
+            ctx.ob("C14.l", so, "merge of interval dictionaries", None, "no dictionary of the combined result is read with the keys of an interval's dictionary")
 
     # ---------------------------------------------------------------- C05.n node selectors of the per-storage report
     io_fn = p.fn_opt("io.extract_output")
@@ -319,7 +360,7 @@ def _accumulators(ctx):
     return n
 
 
-@analysis("lockstep", ["C07.c", "C07.d", "C20.g", "C07.r", "C01.j", "C05.n", "C04.h", "C01.m"])
+@analysis("lockstep", ["C07.c", "C07.d", "C20.g", "C07.r", "C01.j", "C05.n", "C04.h", "C01.m", "C14.l"])
 def run(ctx):
     p = ctx.p
     n_var = n_row = 0
